@@ -441,8 +441,21 @@ def as_branch(e):
             c = dm
             t, el = el, t
             continue
+        # comparisons: `a >= b` is `!(a < b)`, `a <= b` is `!(b < a)`, `a != b` is `!(a == b)`, `a > b` is `b < a` -- only `<` and `==` remain,
+        # so `while i < n {..}` and `loop { if i >= n { break } .. }` have the same polarity
+        if c.get("k") == "Binary" and c.get("op") in _CMP_NEG:
+            op2, swap = _CMP_NEG[c["op"]]
+            c = dict(c, op=op2, l=(c["r"] if swap else c["l"]), r=(c["l"] if swap else c["r"]))
+            t, el = el, t
+            continue
+        if c.get("k") == "Binary" and c.get("op") in (">", "Gt"):
+            c = dict(c, op="<" if c["op"] == ">" else "Lt", l=c["r"], r=c["l"])
+            continue
         break
     return c, t, el
+
+
+_CMP_NEG = {">=": ("<", False), "Ge": ("Lt", False), "<=": ("<", True), "Le": ("Lt", True), "!=": ("==", False), "Ne": ("Eq", False)}
 
 
 def _sole_if(t):
